@@ -21,6 +21,9 @@ structure HLine where
 inductive DCell where
   | num (m : Int) (e : Int)
   | bad (s : Str)
+  /-- a number written as the literal token `s` of the numeric grammar (any spelling: `123`, `-0.00`, `+1.5E3`),
+  whose exact value is m·10^e -/
+  | lit (s : Str) (m : Int) (e : Int)
   deriving DecidableEq, Repr, Inhabited
 
 inductive CSect where
@@ -167,6 +170,7 @@ def printCell (c : DCell) (k : Nat) : Str :=
   match c with
   | .num m e => printNum m e k
   | .bad s => s
+  | .lit s _ _ => s
 
 /-- tokens joined by the separators of the layout -/
 def joinToks : List Str → List (List Bool) → Str
@@ -236,6 +240,7 @@ def declaredNull (c : LasContent) : Int × Int :=
 def expectCell : DCell → Cell
   | .num m e => .num m e
   | .bad _ => .null
+  | .lit _ m e => .num m e
 
 /-- what the reader must return for the content -/
 def toFile (c : LasContent) : LasFile :=
@@ -274,6 +279,7 @@ def wfSect : CSect → Bool
 def wfCell : DCell → Bool
   | .num _ _ => true
   | .bad s => !s.isEmpty && noSpace s && (parseFloat? s).isNone && s.head? != some '#' && s.head? != some '~'
+  | .lit s m e => !s.isEmpty && noSpace s && parseFloat? s == some (m, e) && s.head? != some '#' && s.head? != some '~'
 
 def distinctChars : List Char → Bool
   | [] => true
